@@ -339,7 +339,10 @@ class Interp:
                 return fv
             for c in obj.cls.mro():
                 if name in c.consts:
-                    return self.eval_in_module(c.consts[name], c.module)
+                    v = self.eval_in_module(c.consts[name], c.module)
+                    if "Enum" in c.external_bases() and isinstance(v, (str, int)):
+                        return EnumMember(name, v)
+                    return v
             raise Unsupported(f"class attribute {obj.cls.name}.{name}")
         if isinstance(obj, ModuleVal):
             r = self.repo.lookup_global(obj.mod, name)
@@ -394,6 +397,8 @@ class Interp:
             if h is None:
                 raise Unsupported(f"call of external {f.name}")
             return h(self, list(args), kw)
+        if isinstance(f, ModelObj) and hasattr(f, "m_call_self"):
+            return f.m_call_self(self, list(args), kw)  # a callable library object (e.g. graph.nodes(data=True))
         raise Unsupported(f"call of {type(f).__name__}")
 
     def instantiate(self, cls: ClassInfo, args, kw):
@@ -1296,6 +1301,20 @@ def assigned_names(body):
             if isinstance(n, ast.Name) and isinstance(n.ctx, (ast.Store, ast.Del)):
                 names.add(n.id)
     return names
+
+
+class EnumMember(ModelObj):
+    """a member of an Enum class of the repository: only .value and .name are modelled"""
+
+    def __init__(self, name, value):
+        self.name, self.value = name, value
+
+    def m_getattr(self, I, name):
+        if name == "value":
+            return self.value
+        if name == "name":
+            return self.name
+        raise Unsupported(f"enum member attribute {name}")
 
 
 class _ExternalBase(ModelObj):
